@@ -451,6 +451,99 @@ func checkC14(p *Prog, r *Report) {
 	}
 	r.Floor("hand-written-marshalers-on-message-types", nMarsh, 2)
 
+	// D6 field-level injectivity of the amino-JSON rendering: strings. encoding/json (which go-amino uses for strings) replaces every
+	// invalid UTF-8 byte by U+FFFD, and gogoproto's generated Unmarshal does not validate UTF-8, so two messages that differ only in
+	// invalid bytes of a string field are distinct on the wire (and in what handlers store) but have identical amino-JSON sign bytes —
+	// in the legacy sign mode directly, and for every custom message when it is carried by MsgExec/MsgSubmitProposal. A string field
+	// is safe when ValidateBasic, on every accepting path, confines it to a language without U+FFFD (a character-class regex, a
+	// bech32 address). bytes fields are base64 (injective); numbers, bools and times are canonical.
+	nStr := 0
+	for _, m := range msgs {
+		mn := m.Obj().Name()
+		vb := p.MethodOf(m, "ValidateBasic")
+		stc, _ := m.Underlying().(*types.Struct)
+		if vb == nil || vb.Blocks == nil || stc == nil {
+			continue
+		}
+		A := acceptFormula(p, vb)
+		type cat struct {
+			f   *Formula
+			cls atomClass
+			pos bool
+		}
+		byField := map[string][]cat{}
+		if A != nil {
+			for _, a := range A.Atoms() {
+				if cls, pos, ok := classifyMsgAtom(p, a.Term); ok {
+					byField[cls.Field] = append(byField[cls.Field], cat{a, cls, pos})
+				}
+			}
+		}
+		for i := 0; i < stc.NumFields(); i++ {
+			fld := stc.Field(i)
+			if strings.HasPrefix(fld.Name(), "XXX_") {
+				continue
+			}
+			kind := stringiness(fld.Type())
+			if kind == "" {
+				continue
+			}
+			nStr++
+			key := kp("UTF8", mn+"."+fld.Name()+"#valid-utf8-only")
+			rule := "a string inside a signed message is confined by ValidateBasic to valid UTF-8 (otherwise distinct values share their amino-JSON sign bytes: encoding/json renders every invalid byte as U+FFFD)"
+			site := p.FnPos(vb)
+			if kind == "nested" {
+				leaf := firstUnconstrainedLeaf(fld.Type(), fld.Name(), 0)
+				r.Fail(key, rule, site, fmt.Sprintf("%s.%s is a nested message with free-form string leaves (e.g. %s) that validation only tests for presence or for a class that admits U+FFFD: two messages differing in an invalid UTF-8 byte there have identical amino-JSON sign bytes", mn, fld.Name(), leaf))
+				continue
+			}
+			safe, why := false, "no language or address constraint on the field"
+			if A != nil {
+				var empty *Formula
+				for _, c := range byField[fld.Name()] {
+					if c.cls.Kind == "nonempty" {
+						empty = c.f
+					}
+				}
+				for _, c := range byField[fld.Name()] {
+					sat := c.f
+					if !c.pos {
+						sat = fNot(c.f)
+					}
+					G := sat
+					if empty != nil {
+						G = fOr(empty, sat)
+					}
+					switch {
+					case c.cls.Kind == "utf8":
+						if Entails(A, G) {
+							safe, why = true, "utf8.ValidString on every accepting path"
+						}
+					case c.cls.Kind == "bech32" || c.cls.Kind == "addr-nonempty":
+						if Entails(A, G) {
+							safe, why = true, "bech32 address (ASCII)"
+						}
+					case c.cls.Kind == "lang" && c.cls.Spec.Pat != "":
+						adm, err := LangAdmitsRune(c.cls.Spec, 0xFFFD)
+						if err == nil && !adm && Entails(A, G) {
+							safe, why = true, "confined to "+c.cls.Spec.String()+", which has no string containing U+FFFD"
+						} else if err == nil && adm {
+							why = "its pattern " + c.cls.Spec.Pat + " admits U+FFFD (an invalid byte matches it)"
+						}
+					case c.cls.Kind == "lang":
+						why = "only its length is limited (" + c.cls.Spec.String() + ")"
+					}
+				}
+			}
+			if safe {
+				r.OK(key, rule, site, why)
+			} else {
+				r.Fail(key, rule, site, fmt.Sprintf("%s.%s: %s — e.g. the values \"\\xff\" and \"\\xfe\" are both accepted, both rendered as \"\\ufffd\", so a signature over a message with one validates the message with the other (legacy amino-JSON mode; for every sign mode of the outer transaction when wrapped in MsgExec it is the wrapper's legacy bytes)", mn, fld.Name(), why))
+			}
+		}
+	}
+	r.Floor("string-fields-of-signed-messages", nStr, 30)
+
 	// D5 wrapped messages. authz MsgExec, gov and group MsgSubmitProposal carry other messages as Any and sign, in legacy amino-JSON
 	// mode, the JSON their OWN amino codec produces for them. An inner message whose name is not registered on that codec is
 	// rendered as a bare object (go-amino writes the {"type","value"} wrapper only for registered concrete types), whatever the
@@ -536,4 +629,65 @@ func keys(m map[string]bool) []string {
 	}
 	sort.Strings(ks)
 	return ks
+}
+
+// stringiness: "string" for string / []string / named string types, "nested" for (pointers to / slices of) module structs that
+// contain string leaves, "" for everything whose JSON rendering is canonical (numbers, bools, bytes as base64, times).
+func stringiness(t types.Type) string {
+	switch x := t.(type) {
+	case *types.Pointer:
+		return stringiness(x.Elem())
+	case *types.Slice:
+		if b, ok := x.Elem().Underlying().(*types.Basic); ok && b.Kind() == types.Byte {
+			return ""
+		}
+		return stringiness(x.Elem())
+	case *types.Basic:
+		if x.Info()&types.IsString != 0 {
+			return "string"
+		}
+		return ""
+	case *types.Named:
+		if x.Obj().Pkg() != nil && strings.HasPrefix(x.Obj().Pkg().Path(), ModPath) {
+			if st, ok := x.Underlying().(*types.Struct); ok {
+				for i := 0; i < st.NumFields(); i++ {
+					if !strings.HasPrefix(st.Field(i).Name(), "XXX_") && stringiness(st.Field(i).Type()) != "" {
+						return "nested"
+					}
+				}
+				return ""
+			}
+		}
+		return stringiness(x.Underlying())
+	}
+	return ""
+}
+
+func firstUnconstrainedLeaf(t types.Type, path string, depth int) string {
+	if depth > 5 {
+		return path
+	}
+	switch x := t.(type) {
+	case *types.Pointer:
+		return firstUnconstrainedLeaf(x.Elem(), path, depth)
+	case *types.Slice:
+		return firstUnconstrainedLeaf(x.Elem(), path+"[]", depth)
+	case *types.Named:
+		if st, ok := x.Underlying().(*types.Struct); ok {
+			best := ""
+			for i := 0; i < st.NumFields(); i++ {
+				f := st.Field(i)
+				if strings.HasPrefix(f.Name(), "XXX_") || stringiness(f.Type()) == "" {
+					continue
+				}
+				l := firstUnconstrainedLeaf(f.Type(), path+"."+f.Name(), depth+1)
+				if best == "" || strings.Contains(l, "Service") {
+					best = l
+				}
+			}
+			return best
+		}
+		return firstUnconstrainedLeaf(x.Underlying(), path, depth)
+	}
+	return path
 }
